@@ -61,8 +61,8 @@ Definition construct_origin (v : N) : res bytes :=
   else E_UPD c_ERR_MSG_UPDATE_INVALID_ORIGIN.
 Definition parse_origin (v : bytes) : res aval :=
   match v with
-  | [] => PyExc                                          (* ord(b'') *)
-  | o :: _ => if o <=? 2 then Ok (VNum o) else E_UPD c_ERR_MSG_UPDATE_INVALID_ORIGIN
+  | [o] => if o <=? 2 then Ok (VNum o) else E_UPD c_ERR_MSG_UPDATE_INVALID_ORIGIN
+  | _ => E_UPD c_ERR_MSG_UPDATE_ATTR_LEN                  (* the length must be exactly 1 *)
   end.
 
 (** ---- AS_PATH ---- *)
